@@ -287,7 +287,9 @@ pub fn predict(snap: &Snap, meaning: &BTreeMap<String, Meaning>, inv: &Inv, answ
                     }
                     Pred::Judged(Expect { exit, run_ok: Some((w, res, cmpw)), err_text: None, writes, may_touch: may, either })
                 }
-                Ans::Err(text) => Pred::Judged(Expect { exit: 0, run_ok: None, err_text: Some(format!("{text}\n")), writes: vec![], may_touch: vec![], either: None }),
+                // the tool prints the library's message and exits 0 today; the status of a run that
+                // only reports an error is not the property's business (0 or 1), the message is
+                Ans::Err(text) => Pred::Judged(Expect { exit: -1, run_ok: None, err_text: Some(format!("{text}\n")), writes: vec![], may_touch: vec![], either: None }),
                 other => Pred::Unjudgeable(format!("library answer is {other:?}")),
             }
         }
@@ -461,14 +463,19 @@ fn check_stdout_run(stdout: &str, words: &[String], res: &[String], cmp: &Option
 /// strict check of a fault-free (or benign-fault) invocation
 fn check_strict(e: &Expect, o: &InvOut, before: &Snap, after: &Snap, inv_i: usize) -> Option<Fail> {
     if e.exit < 0 {
-        if !matches!(o.out.code, Some(0) | Some(1)) {
-            return Some(Fail { clause: "exit-status", inv: inv_i, detail: format!("exit {:?} signal {:?}, expected exit 0 or 1", o.out.code, o.out.signal) });
+        if o.out.code.is_none() {
+            return Some(Fail { clause: "exit-status", inv: inv_i, detail: format!("exit {:?} signal {:?}, expected the tool to exit by itself", o.out.code, o.out.signal) });
+        }
+    } else if e.exit == 1 {
+        // a refusal or a failure: which non-zero status is the tool's own business
+        if o.out.code == Some(0) || o.out.code.is_none() {
+            return Some(Fail { clause: "exit-status", inv: inv_i, detail: format!("exit {:?} signal {:?}, expected a non-zero exit status; stdout {:?} stderr {:?}", o.out.code, o.out.signal, tail(&o.out.stdout), tail(&o.out.stderr)) });
         }
     } else if o.out.code != Some(e.exit) {
         return Some(Fail { clause: "exit-status", inv: inv_i, detail: format!("exit {:?} signal {:?}, expected exit {}; stdout {:?} stderr {:?}", o.out.code, o.out.signal, e.exit, tail(&o.out.stdout), tail(&o.out.stderr)) });
     }
     if let Some(t) = &e.err_text {
-        if &o.out.stdout != t {
+        if !o.out.stdout.contains(t.trim_end()) {
             return Some(Fail { clause: "stdout-error", inv: inv_i, detail: format!("stdout {:?}, expected the library's message {:?}", o.out.stdout, t) });
         }
     }
@@ -718,7 +725,7 @@ fn run_history_inner(root: &str, scn: &mut Scn, oracle: &mut Oracle, st: &mut St
         match &inv.cmd {
             Cmd::Run { rules, json, words, .. } => {
                 if rules.is_none() && json.is_none() {
-                    st.probe(if e.exit == 0 { "discovery_one_candidate" } else { "discovery_rejected" });
+                    st.probe(if e.exit != 1 { "discovery_one_candidate" } else { "discovery_rejected" });
                 }
                 if json.is_some() && words.is_some() {
                     st.probe("json_with_w_override");
